@@ -8,4 +8,5 @@ Extraction "extracted_GEN.ml" C_cm_hash.run C_cdb_hash.run C_cdbmake_hashadd.run
   C_quote_need.run K_quote_need.run C_nextretry.run C_needspace.run C_atomok.run C_issafe.run C_hmatch.run C_atomcheck.run C_striptrailingwhitespace.run
   C_rblast.run C_sblast.run C_smtpcode.run C_getlen.run
   C_rreport.run K_rreport.run C_lreport.run K_lreport.run C_safeput.run K_safeput.run C_fmtqfn.run K_fmtqfn.run C_addrparse.run K_addrparse.run C_clean_main.run
-  C_substdio_flush.run C_substdio_bput.run C_substdio_put.run C_substdio_putflush.run K_substdio_flush.run K_substdio_bput.run K_substdio_put.run K_substdio_putflush.run.
+  C_substdio_flush.run C_substdio_bput.run C_substdio_put.run C_substdio_putflush.run K_substdio_flush.run K_substdio_bput.run K_substdio_put.run K_substdio_putflush.run
+  C_substdio_get.run K_substdio_get.run C_substdio_feed.run.
